@@ -18,9 +18,10 @@ Theorem C06_flags : forall fill n rs,
 Proof. exact collect_flags_correct. Qed.
 Print Assumptions C06_flags.
 
-(* list form: with every data/axis array present nothing raises *)
-Theorem C06_list : forall n rs,
-  Forall (wf_write n) (writes_of rs) -> Forall (wf_ctx n) rs ->
+(* list form, with AND without auxiliary axis arrays (`shape` says which of time / depth / lat / lon the
+   run's streams have; an absent axis arrives as an empty array in every ContextResult): nothing raises *)
+Theorem C06_list : forall shape n rs,
+  Forall (wf_write n) (writes_of rs) -> Forall (wf_ctx shape n) rs ->
   exists f p, collect_list_model rs = CList f p /\
     map fst f = first_seen (map write_key (writes_of rs)) [] /\
     forall k, find k f =
@@ -78,19 +79,14 @@ Theorem C06_perm : forall ws ws' k i fill,
 Proof. intros. rewrite !flag_spec_from. apply flag_from_perm; assumption. Qed.
 Print Assumptions C06_perm.
 
-(* the faithful list model DOES raise when a stream has no axis arrays and a window is partial:
-   the full statement (no hypothesis on axes) is refuted by this witness — see KNOWN_FINDINGS F11 *)
-Theorem C06_list_no_axes_refuted :
-  exists rs, Forall (wf_write 2) (writes_of rs) /\ disjoint (writes_of rs) /\
-             collect_list_model rs = CRaises ValueError.
-Proof.
-  exists [ {| r_stream := "a"; r_calls := [ {| c_pkg := "qartod"; c_test := "t"; c_flags := [GOOD] |} ];
-              r_mask := [true; false]; r_pay := [[Some 1]; []; []; []; []] |} ].
-  split; [repeat constructor|]. split; [|vm_compute; reflexivity].
-  intros k i ws1 w ws2 E Hc. destruct ws1 as [|? [|? ?]]; simpl in E; try discriminate.
-  injection E as <- <-. split; intros w' [].
-Qed.
-Print Assumptions C06_list_no_axes_refuted.
+(* regression example for the repaired defect F11: a stream without axis arrays and a partial window *)
+Example C06_list_no_axes_ok :
+  collect_list_model
+    [ {| r_stream := "a"; r_calls := [ {| c_pkg := "qartod"; c_test := "t"; c_flags := [GOOD] |} ];
+         r_mask := [true; false]; r_pay := [[Some 1]; []; []; []; []] |} ]
+  = CList [(("a", "qartod", "t"), [Some GOOD; None])]
+          [(("a", "qartod", "t"), [[Some (Some 1); None]; [None; None]; [None; None]; [None; None]; [None; None]])].
+Proof. vm_compute. reflexivity. Qed.
 
 Example C06_ex1 :
   collect_list_model
@@ -98,7 +94,10 @@ Example C06_ex1 :
          r_mask := [false; true; false; true]; r_pay := [[Some 1; Some 3]; [Some 11; Some 13]; []; []; []] |};
       {| r_stream := "a"; r_calls := [ {| c_pkg := "qartod"; c_test := "t"; c_flags := [SUSPECT] |} ];
          r_mask := [true; false; false; false]; r_pay := [[Some 0]; [Some 10]; []; []; []] |} ]
-  = CRaises ValueError.
+  = CList [(("a", "qartod", "t"), [Some SUSPECT; Some FAIL; None; Some GOOD])]
+          [(("a", "qartod", "t"), [[Some (Some 0); Some (Some 1); None; Some (Some 3)];
+                                   [Some (Some 10); Some (Some 11); None; Some (Some 13)];
+                                   [None; None; None; None]; [None; None; None; None]; [None; None; None; None]])].
 Proof. vm_compute. reflexivity. Qed.
 
 Example C06_ex2 :
